@@ -889,7 +889,7 @@ impl Rasn {
             }).transpose()?;
                 if let Some(ty_n) = rust_ty_name.as_ref().or(type_name) {
                     let option = self.to_rust_enum_identifier(i);
-                    let inner = self.value_to_tokens(v, None)?;
+                    let inner = self.choice_inner_value_to_tokens(v)?;
                     Ok(quote!(#ty_n::#option(#inner)))
                 } else {
                     Err(error!(
@@ -910,9 +910,7 @@ impl Rasn {
                 if let Some(ty_n) = type_name {
                     let tokenized_fields = fields
                         .iter()
-                        .map(|(_, ty, val)| {
-                            self.value_to_tokens(val.value(), self.type_to_tokens(ty).ok().as_ref())
-                        })
+                        .map(|(_, ty, val)| self.struct_member_value_to_tokens(ty, val.value()))
                         .collect::<Result<Vec<TokenStream>, _>>()?;
                     Ok(quote!(#ty_n ::new(#(#tokenized_fields),*)))
                 } else {
@@ -1002,11 +1000,12 @@ impl Rasn {
                     .then(|| wrappers.pop())
                     .flatten()
                     .map(|root| self.linked_type_name_to_tokens(&root));
-                Ok(nester(
-                    self,
-                    self.value_to_tokens(value, root_type.as_ref().or(type_name))?,
-                    wrappers,
-                ))
+                let mut inner = self.value_to_tokens(value, root_type.as_ref().or(type_name))?;
+                // the list of a SET OF type is a `SetOf`, not a `Vec`
+                if matches!(**value, ASN1Value::LinkedArrayLikeValue(_)) && !wrappers.is_empty() {
+                    inner = quote!(#inner.into());
+                }
+                Ok(nester(self, inner, wrappers))
             }
             ASN1Value::LinkedIntValue {
                 integer_type,
@@ -1084,6 +1083,38 @@ impl Rasn {
                     || element_tag.is_some()
             }
             _ => false,
+        }
+    }
+
+    /// The value of the chosen alternative of a CHOICE value
+    pub(crate) fn choice_inner_value_to_tokens(
+        &self,
+        value: &ASN1Value,
+    ) -> Result<TokenStream, GeneratorError> {
+        let tokens = self.value_to_tokens(value, None)?;
+        // the alternative may be a SET OF, whose list is a `SetOf`, not a `Vec`
+        if matches!(value, ASN1Value::LinkedArrayLikeValue(_)) {
+            Ok(quote!(#tokens.into()))
+        } else {
+            Ok(tokens)
+        }
+    }
+
+    /// The value of a component of a SEQUENCE or SET value
+    pub(crate) fn struct_member_value_to_tokens(
+        &self,
+        ty: &ASN1Type,
+        value: &ASN1Value,
+    ) -> Result<TokenStream, GeneratorError> {
+        let tokens = self.value_to_tokens(value, self.type_to_tokens(ty).ok().as_ref())?;
+        // the list of a SET OF component is a `SetOf`, not a `Vec`
+        if matches!(
+            (ty, value),
+            (ASN1Type::SetOf(_), ASN1Value::LinkedArrayLikeValue(_))
+        ) {
+            Ok(quote!(#tokens.into()))
+        } else {
+            Ok(tokens)
         }
     }
 
